@@ -784,8 +784,8 @@ theorem needed_group_of_replaced_line_counterexample :
 /-! ## 13. What C14 guarantees for the in-place edit of an UNSHARED object-group (complement of F-C14g)
 
 Hypothesis of the positive statement (decidable on the script and the two configurations): the place keeps its
-access list (no re-binding in the run), the group is used by ONE access-list line, no line of that access list is inserted, deleted or moved in the run (otherwise F-C14g), the other
-groups of that line are not edited, and the member texts of old and new group do not overlap (a packet address is
+access list (no re-binding in the run), the group is used by ONE access-list line, no line of that access list is inserted, deleted or moved in the run (otherwise F-C14g), no other
+group that a line of that access list uses is edited (`pre`, `post` below are untouched in the run), and the member texts of old and new group do not overlap (a packet address is
 covered by at most one of them — true for the hosts and disjoint networks Netspoc generates for one group). -/
 
 /-- Every state between two member commands of `equalizedGroups`' in-place edit holds a member set between
